@@ -885,7 +885,13 @@ func replaySimple(in *core.Lines, args []string, seed int64, sum *core.Summary) 
 	var types []string
 	ids := []int64{}
 	var absent int64
+	// views=1: check only the wrapper views (views.go), once per reachable state instead of every
+	// query once per transition
+	viewsOnly := false
 	for _, a := range args {
+		if a == "views=1" {
+			viewsOnly = true
+		}
 		if strings.HasPrefix(a, "types=") {
 			types = strings.Split(a[6:], ",")
 		}
@@ -897,6 +903,8 @@ func replaySimple(in *core.Lines, args []string, seed int64, sum *core.Summary) 
 		}
 	}
 	states := map[string]*fullState{}
+	views := map[string]*viewState{}
+	var viewOrder []string
 	var trans []*transRec
 	nh := 0
 	for {
@@ -912,11 +920,34 @@ func replaySimple(in *core.Lines, args []string, seed int64, sum *core.Summary) 
 		}
 		switch probe.K {
 		case "s":
+			if viewsOnly {
+				continue
+			}
 			st := new(fullState)
 			if err := json.Unmarshal(b, st); err != nil {
 				return err
 			}
 			states[keyOf(&stateRec{Nodes: st.Nodes, Edges: st.Edges, Built: st.Built, Obj: st.Obj})] = st
+		case "v":
+			if !viewsOnly {
+				continue
+			}
+			v := new(viewState)
+			if err := json.Unmarshal(b, v); err != nil {
+				return err
+			}
+			k := keyOf(&stateRec{Nodes: v.Nodes, Edges: v.Edges, Built: v.Built, Obj: v.Obj})
+			views[k] = v
+			viewOrder = append(viewOrder, k)
+		case "vh":
+			c := new(viewCase)
+			if err := json.Unmarshal(b, c); err != nil {
+				return err
+			}
+			runViewHistory(c, sum)
+			sum.Cases++
+			sum.Nontrivial++
+			nh++
 		case "t":
 			t := new(transRec)
 			if err := json.Unmarshal(b, t); err != nil {
@@ -968,6 +999,32 @@ func replaySimple(in *core.Lines, args []string, seed int64, sum *core.Summary) 
 				root[tk] = root[sk]
 			}
 		}
+	}
+	if viewsOnly {
+		// every reachable state once, reached by its shortest real history
+		for vi, sk := range viewOrder {
+			ops, ok := path[sk]
+			if !ok {
+				return fmt.Errorf("no history reaches the state %s", sk)
+			}
+			ops = append([]opRec{}, ops...)
+			if a := alts[root[sk]]; len(ops) > 0 && len(a) > 1 {
+				ops[0] = a[(vi+int(seed%1000))%len(a)]
+			}
+			for _, ty := range types {
+				c := &viewCase{K: "vh", Type: ty, Ops: ops, Expect: views[sk], IDs: ids, Absent: absent}
+				runViewHistory(c, sum)
+				sum.Cases++
+				if len(views[sk].Nodes) > 1 {
+					sum.Nontrivial++
+				}
+				if sum.Cases%997 == 1 {
+					sum.Sample(map[string]any{"type": ty, "history": ops, "views_of": stateRec{Nodes: views[sk].Nodes, Edges: views[sk].Edges}})
+				}
+			}
+		}
+		sum.Count("model_states", len(views))
+		return nil
 	}
 	distinct := map[string]bool{}
 	for ti, t := range trans {
